@@ -6,7 +6,8 @@ PID = "C09"
 ENGINE = "conc"
 RULE = ("observe_on(new-thread scheduler) at every position of a short pipeline and stacked twice over a hot Subject fed by an emitting "
         "thread (0-4 items, then complete / error / nothing), and subscribe_on at every position and stacked twice over cold sources, with "
-        "and without a thread that unsubscribes concurrently; smallest instances over ALL schedules (DFS), the others under random and PCT "
+        "and without a thread that unsubscribes concurrently, with a subscriber that emits one more item into the source from inside its "
+        "i-th callback (feedback: delivered once, later, never nested), and with bursts of 70-130 items that leave the worker far behind; smallest instances over ALL schedules (DFS), the others under random and PCT "
         "schedules, part of them with spurious condvar wake-ups; judged against the emitted script: without unsubscribe the subscriber "
         "receives exactly the emitted events in order with the terminal last, with unsubscribe a prefix and no event whose emission began "
         "after unsubscribe returned; all callbacks on ONE thread that is neither the emitting nor the subscribing thread, never two "
@@ -14,7 +15,7 @@ RULE = ("observe_on(new-thread scheduler) at every position of a short pipeline 
         "non-trivial = an observation with at least two callbacks on a worker thread while the emitter was still emitting or an "
         "unsubscribe overlapping the emission; distinct = distinct (scenario, subscriber log)")
 ASSUMPTIONS = ["scheduling points are the facade's lock/condvar/spawn/sleep operations (sequentially consistent memory)",
-               "user callbacks return and do not re-enter the library",
+               "user callbacks return; the only re-entrance is the feedback emission of the feedback cases",
                "the source is contract-conform: at most one terminal, last (C01)"]
 
 
@@ -35,7 +36,7 @@ HOT_SHAPES = ["oo", "map-oo", "oo-map", "oo-oo", "map-oo-map"]     # (subscribe_
 COLD_SHAPES = ["so", "map-so", "so-map", "so-so", "oo-so"]
 
 
-def hot_case(shape, items, en, unsub, sched, spurious=False, twice=False, idle=None):
+def hot_case(shape, items, en, unsub, sched, spurious=False, twice=False, idle=None, feedback=None):
     pipe = wrap(shape, ["hot", 0])
     emit = [["next", 0, v] for v in items] + ([term_of(en)] if term_of(en) else [])
     if idle is not None and emit:
@@ -44,13 +45,18 @@ def hot_case(shape, items, en, unsub, sched, spurious=False, twice=False, idle=N
     threads = [["e"] + emit]
     if unsub:
         threads.append(["u", ["unsub", 0]])
-    scn = ["conc", ["objects", ["subject", "subject"], ["pipe", pipe]], ["init", ["sub", 0, 0]] + ([["sub", 1, 0]] if twice else []),
+    sub0 = ["sub", 0, 0]
+    if feedback is not None:
+        # the subscriber, on the worker thread, emits one more item into the source from inside its i-th callback
+        sub0 = sub0 + [["react", feedback[0], ["next", 0, feedback[1]]]]
+    scn = ["conc", ["objects", ["subject", "subject"], ["pipe", pipe]], ["init", sub0] + ([["sub", 1, 0]] if twice else []),
            ["threads"] + threads, ["fini"], ["sched"] + sched]
     if spurious:
         scn.append(["spurious"])
     if sched[0] == "dfs":
         scn.append(["want-choices"])
-    return {"scn": scn, "kind": "hot", "shape": shape, "items": items, "en": en, "unsub": unsub, "sched": sched, "users": [0, 1] if twice else [0]}
+    return {"scn": scn, "kind": "hot", "shape": shape, "items": items, "en": en, "unsub": unsub, "sched": sched, "users": [0, 1] if twice else [0],
+            "feedback": feedback}
 
 
 def cold_case(shape, items, en, unsub, sched, spurious=False, twice=False):
@@ -74,6 +80,13 @@ def generate(rng, tier, seed):
         cases.append(hot_case("oo", [1, 2], "n", unsub, ["dfs", 6000]))
         if thorough:
             cases.append(hot_case("oo", [1, 2], "c", unsub, ["dfs", 60000]))
+    # a burst: the worker falls far behind (PCT gives the emitter priority in about half of the schedules), the backlog is drained
+    # in whatever batches the queue hands out
+    for shape in (["oo", "oo-map", "oo-oo"] if thorough else ["oo", "oo-map"]):
+        for nb in ([70, 130] if thorough else [70]):
+            base = seed * 1000 + rng.randrange(1000)
+            cases.append(hot_case(shape, list(range(1, nb + 1)), rng.choice(["c", "e"]), False, ["pct", 3, base, 12 if thorough else 6]))
+            cases.append(hot_case(shape, list(range(1, nb + 1)), "c", False, ["random", base, 6 if thorough else 3]))
     n = 40 if thorough else 9
     for _ in range(n):
         for shape in HOT_SHAPES:
@@ -87,6 +100,14 @@ def generate(rng, tier, seed):
                 cases.append(hot_case(shape, items, en, unsub, ["random", base, 20 if thorough else 8], twice=True))
             if rng.random() < 0.5:
                 cases.append(hot_case(shape, items, en, False, ["random", base, 20 if thorough else 8], idle=(rng.randrange(0, 5), rng.choice([50, 1500, 5000]))))
+            if rng.random() < 0.6:
+                # feedback: callback i (on the worker) emits item 99 into the source; no terminal (it could overtake the feedback item)
+                its = [rng.choice([1, 2, 3]) + 10 * i for i in range(rng.randrange(1, 5))]
+                cases.append(hot_case(shape, its, "n", False, [rng.choice(["random", "pct"])] + ([3] if False else []) + [base, 16 if thorough else 8],
+                                      feedback=(rng.randrange(0, len(its)), 99)))
+                if cases[-1]["sched"][0] == "pct":
+                    cases[-1]["sched"][1:1] = [3]
+                    cases[-1]["scn"][5] = ["sched"] + cases[-1]["sched"]
         for shape in COLD_SHAPES:
             items = [rng.choice([1, 2, 3]) + 10 * i for i in range(rng.randrange(0, 5))]
             en = rng.choice(["c", "c", "e", "n"])
@@ -134,7 +155,17 @@ def judge_user(case, ob, u):
             b, a = open_[r[2]].pop()
             spans.append((a, b, pos))
     unsub = [(b, e) for (a, b, e) in spans if a[0] == "unsub"]
-    if not case["unsub"] or u != 0:
+    fb = case.get("feedback")
+    if fb is not None:
+        # the feedback item arrives exactly once, after the callback that emitted it; the rest is the emitted script in order
+        v = str(fb[1])
+        pos = [k for k, g in enumerate(gots) if g == ["n", v]]
+        rest = [g for g in gots if g != ["n", v]]
+        if rest != want:
+            bad.append("the subscriber received %s but the source emitted %s (plus the feedback item)" % (got, want))
+        elif len(pos) != 1 or pos[0] <= fb[0]:
+            bad.append("the item emitted from inside callback #%d was delivered %d time(s) at position(s) %s of %s" % (fb[0], len(pos), pos, got))
+    elif not case["unsub"] or u != 0:
         if gots != want:
             bad.append("the subscriber received %s but the source emitted %s" % (got, want))
     else:
